@@ -246,6 +246,8 @@ func c12Gen(tier string, emit func(c12Case)) {
 	}
 }
 
+var c12Prev, c12PrevClone, c12PrevWhat string
+
 func c12Run(c *Ctx, cs c12Case) {
 	g, data := namedGraph(cs.Graph)
 	res := Validate(cs.Profile, data)
@@ -254,6 +256,11 @@ func c12Run(c *Ctx, cs c12Case) {
 		c.Violate("C12 no report: "+firstLine(res.ErrString()), cs.Profile, nil)
 		return
 	}
+	if c12Prev != c12PrevClone {
+		// the report checked in the previous case no longer has the bytes it had when it was returned
+		c.Violate("C12 a report changed after it was returned (it is no longer the well-formed document that was checked)", "earlier report ("+c12PrevWhat+") changed when the next validation ran\n"+firstDiff(c12PrevClone, c12Prev), nil)
+	}
+	c12Prev, c12PrevClone, c12PrevWhat = res.Report, string(append([]byte(nil), res.Report...)), cs.Src+" on "+cs.Graph
 	ids := map[string]bool{}
 	for _, n := range g.Nodes {
 		ids[n.ID] = true
